@@ -407,11 +407,24 @@ def r14(ctx, R, rule='R1.4'):
             d = single_def(f, nm)
             if d is not None and 'get_all_by_resource_provider' in src(
                     d.value):
+                # overlay = keyed stores of the new entries: d[k] = v in
+                # a loop over the new list, or d.update(<mapping built from
+                # the new list>); setdefault keeps the old entry and is not
+                # an overlay
+                newv = src(l1.target.elts[1]) if isinstance(
+                    l1.target, ast.Tuple) and len(
+                        l1.target.elts) == 2 else None
                 stores = [x for x in own_nodes_of(l1)
                           if isinstance(x, ast.Assign) and any(
                               isinstance(t, ast.Subscript) and src(
                                   t.value) == nm for t in x.targets)]
-                if stores:
+                updates = [x for x in own_nodes_of(l1)
+                           if isinstance(x, ast.Call) and isinstance(
+                               x.func, ast.Attribute) and x.func.attr ==
+                           'update' and src(x.func.value) == nm and len(
+                               x.args) == 1 and not x.keywords and newv in
+                           C.names_in(x.args[0])]
+                if stores or updates:
                     oku = True
     R.ob(rule, 'reshape:interim-is-union', oku,
          'the interim inventory starts from the stored one and overlays the '
